@@ -139,12 +139,14 @@ Lemma except_keeps st2 p f r :
   keeps st2 (fst (match r with
                   | Ret v => (st2, Ret v)
                   | Exc e =>
+                      if same_err (f_err (get st2 p)) e then (upd st2 f (set_err e), Exc e) else
                       let st3 := upd st2 p (add_cerr f) in
                       let st4 := upd st3 f (set_err e) in
                       let st5 := if f_nopy (get st4 p) then nopy_walk (List.length st4) st4 p e else st4 in
                       (st5, Exc e) end)).
 Proof.
   destruct r as [v|e]; cbn [fst]; [apply keeps_refl|]. cbv zeta.
+  destruct (same_err (f_err (get st2 p)) e); cbn [fst]; [apply upd_keeps; reflexivity|].
   eapply keeps_trans; [apply (upd_keeps st2 p (add_cerr f)); reflexivity|].
   eapply keeps_trans; [apply (upd_keeps (upd st2 p (add_cerr f)) f (set_err e)); reflexivity|].
   destruct (f_nopy _); [apply nopy_walk_keeps|apply keeps_refl].
@@ -160,6 +162,7 @@ Proof.
             keeps st (fst (match r with
                            | Ret v => (st2, Ret v)
                            | Exc e =>
+                               if same_err (f_err (get st2 p)) e then (upd st2 (List.length st) (set_err e), Exc e) else
                                let st3 := upd st2 p (add_cerr (List.length st)) in
                                let st4 := upd st3 (List.length st) (set_err e) in
                                let st5 := if f_nopy (get st4 p) then nopy_walk (List.length st4) st4 p e else st4 in
@@ -209,6 +212,7 @@ Proof.
               keeps st1 (fst (match r with
                              | Ret v => (st2, Ret v)
                              | Exc e =>
+                                 if same_err (f_err (get st2 p)) e then (upd st2 (List.length st) (set_err e), Exc e) else
                                  let st3 := upd st2 p (add_cerr (List.length st)) in
                                  let st4 := upd st3 (List.length st) (set_err e) in
                                  let st5 := if f_nopy (get st4 p) then nopy_walk (List.length st4) st4 p e else st4 in
